@@ -1,4 +1,5 @@
 import PiqpProofs.Basic
+import PiqpModel.Api
 import PiqpModel.Control
 import PiqpProofs.Properties.C01
 import PiqpProofs.Properties.C08
@@ -93,3 +94,37 @@ theorem failures_keep_certificate (e : Env K n p m) (d0 : Data K n p m) (hk : e.
 end poison
 end Piqp.C12
 
+namespace Piqp.C12
+section api
+variable {K : Type}
+variable [Add K] [Sub K] [Mul K] [Div K] [Neg K] [Zero K] [One K] [LT K] [DecidableLT K] [LE K] [DecidableLE K]
+variable [NatCast K] [BEq K] [Inhabited K]
+variable {n p m : Nat}
+
+/-- **C12 at the interface**: `solve()` answers NUMERICS only with iterative refinement switched on (and it stays on in the
+    solver object) — i.e. never before refinement has been tried — for every state, data and failure pattern of the inner
+    factorisation -/
+theorem solve_numerics_refinement_on (cs : Consts K) (sqrtF : K → K) (s : Solver K n p m) (perm : Vector (Fin (n + p + m)) (n + p + m))
+    (h : (solveTyped cs sqrtF s perm).2 = Status.numerics) : (solveTyped cs sqrtF s perm).1.refineOn = true := by
+  unfold solveTyped at h ⊢
+  by_cases hv : s.st.verify
+  · simp only [hv, Bool.not_true, Bool.false_eq_true, if_false] at h ⊢
+    have hil := init_numerics_only_after_retries (Solver.env cs sqrtF s perm).st (Solver.env cs sqrtF s perm).cs
+      (realOps (Solver.env cs sqrtF s perm)) s.refineOn 0 ((solveStart cs sqrtF s perm).1, (solveStart cs sqrtF s perm).2.1)
+      (solveStart cs sqrtF s perm).2.2
+    generalize initLoopG (Solver.env cs sqrtF s perm).st (Solver.env cs sqrtF s perm).cs (realOps (Solver.env cs sqrtF s perm))
+      s.refineOn 0 ((solveStart cs sqrtF s perm).1, (solveStart cs sqrtF s perm).2.1) (solveStart cs sqrtF s perm).2.2 = il at hil h ⊢
+    obtain ⟨a, b, wk, info, ok⟩ := il
+    simp only at hil h ⊢
+    cases ok
+    · simp only [Bool.not_false, if_true]
+      exact (hil rfl).1
+    · simp only [Bool.not_true, Bool.false_eq_true, if_false] at h ⊢
+      unfold mainLoop at h ⊢
+      simp only at h ⊢
+      exact (numerics_only_after_retries _ _ _ _ _ _ h).1
+  · have hv' : s.st.verify = false := by simpa using hv
+    simp only [hv', Bool.not_false, if_true] at h
+    cases h
+end api
+end Piqp.C12
